@@ -286,6 +286,29 @@ def check(ctx, rep):
     if b_from is not None:
         tab = str_match_table(b_from)
         t_from = {s: v[2] for s, v in tab.items() if v and v[0] == "variant" and v[1] == "Ok"}
+        if not t_from and t_to is not None:
+            # the inverse by construction: search a constant array of all kinds for the one whose name (the From table) equals
+            # the text. It is the inverse of the name table exactly if the array holds every kind
+            arr = None
+            for pb in b_from.promoted:
+                for blk in pb.blocks:
+                    for st in blk["stmts"]:
+                        if st["k"] == "assign" and st["rv"]["k"] == "use":
+                            c = op_const(st["rv"]["op"])
+                            if c is not None and "raw" in c and str(c.get("ty", "")).startswith("[" + KIND):
+                                arr = list(c["raw"])
+            finds = [t for _bi, t in b_from.calls() if strip_generics(mir.callee_name(t) or "").endswith("Iterator::find") or strip_generics(mir.callee_name(t) or "").endswith("Iterator>::find")]
+            by_name = False
+            for cid in prog.closures_of.get(b_from.id, []):
+                cb = prog.bodies[cid]
+                for _bi, tt in cb.calls():
+                    nm2 = strip_generics(mir.callee_name(tt) or "")
+                    if nm2.endswith("::eq"):
+                        a = [repr(G.describe(cb, x)) for x in tt["args"]]
+                        if any(("From for &'static str>::from(_2" in x or (b_to is not None and strip_generics(b_to.id) + "(_2" in x)) for x in a) and any(re.fullmatch(r"_1\*?\.0\**", x) for x in a):
+                            by_name = True
+            if arr is not None and len(finds) == 1 and by_name and sorted(arr) == sorted(knames) and len(set(arr)) == len(arr):
+                t_from = {v: k for k, v in t_to.items()}
     for nm, tb, body in (("kind-to-str", t_to, b_to), ("kind-display", t_disp, b_disp)):
         if tb is None or body is None:
             rep.gap("HaystackKind:" + nm, "-", "table not found")
@@ -418,7 +441,17 @@ def check_make_from_dicts(ctx, rep):
     n += 1
     key_src = any(nm.endswith("BTreeMap::keys") or nm.endswith("Dict::keys") or nm.endswith("::keys") for nm in names)
     ins = any(nm.endswith("HashSet::insert") or nm.endswith("BTreeSet::insert") for nm in names)
-    if key_src and ins:
+    # ... or collected straight into a set: rows.iter().flat_map(|r| r.keys()).collect::<BTreeSet / HashSet>()
+    set_collect = False
+    sorted_set = False
+    for x, bi, nm in calls:
+        if nm.endswith("Iterator::collect") or nm.endswith("Iterator>::collect"):
+            c = callee_of(x.term(bi))
+            targs = [t for t in (c.get("targs", []) if c else []) if not t.startswith("'")]
+            if any(t.startswith("std::collections::BTreeSet") or t.startswith("std::collections::HashSet") for t in targs) and any(n2.endswith("::flat_map") or n2.endswith("::flatten") for n2 in names):
+                set_collect = True
+                sorted_set = any(t.startswith("std::collections::BTreeSet") for t in targs)
+    if key_src and (ins or set_collect):
         rep.ok("T-COLUMNS", "make_from_dicts:union-of-keys", b.where(), "every key of every row is inserted into a set (de-duplicated union)")
     else:
         rep.bad("T-COLUMNS", "T-COLUMNS:make_from_dicts:union-of-keys", b.where(), "column names are not gathered as keys() of every row inserted into a set (keys=%s, set insert=%s)" % (key_src, ins))
@@ -436,7 +469,9 @@ def check_make_from_dicts(ctx, rep):
                         a0, a1 = repr(G.describe(x, t["args"][0])), repr(G.describe(x, t["args"][1]))
                         if a0.startswith("_2") and a1.startswith("_3"):
                             by_name = True
-    if srt and by_name:
+    if sorted_set and not any(c[2].endswith("::rev") or c[2].endswith("::reverse") or "sort" in c[2].split("::")[-1] for c in calls):
+        rep.ok("T-COLUMNS", "make_from_dicts:sorted-by-name", b.where(), "column names come out of a BTreeSet<&String>, which iterates in ascending order")
+    elif srt and by_name:
         rep.ok("T-COLUMNS", "make_from_dicts:sorted-by-name", b.where(), "columns sorted ascending by name")
     else:
         rep.bad("T-COLUMNS", "T-COLUMNS:make_from_dicts:sorted-by-name", b.where(), "columns are not sorted ascending by name (sort call: %s, comparator a.name.cmp(b.name): %s)" % (bool(srt), by_name))
